@@ -1045,6 +1045,9 @@ class Interp:
         c = self.place_get(st, cont)
         v = self.deref_for_store(st, v)
         if isinstance(c, DictV):
+            hook = getattr(self.theory, "on_setitem", None)
+            if hook is not None:
+                hook(st, fr, cont, self.key_term(c, key), v)
             self.place_set(st, cont, c.store(self.key_term(c, key), v))
             return [(st, NORMAL)]
         return self.theory.setitem(st, fr, cont, key, v)
